@@ -256,6 +256,12 @@ MUTATIONS_STORE = ["rehash", "uval", "add", "unlazy", "lazy", "unenum", "remeta"
                    "d2f", "explicit", "hashed", "mvdir"]
 
 
+# lazy-view arm (views over indexes of the storage arm): files move more often, so that deleted and added
+# keys share a hash inside / across the unloaded directory objects
+MUTATIONS_LV = ["move", "mvdir", "move", "rehash", "add", "drop", "move", "dup", "unlazy", "lazy", "remeta",
+                "unenum", "f2d", "d2f", "move", "explicit", "hashed", "uval", "noneq"]
+
+
 def _mark(draw, root, lz):
     """Turn a directory into an unloaded .dir entry (loadable or not): mostly a non-root directory (a new,
     possibly empty one if there is none), sometimes the root key () itself."""
@@ -535,16 +541,95 @@ def _views(draw, a, b):
     return out if out["old"] or out["new"] else None
 
 
+_lvshape = st.sampled_from(["root", "general", "root", "dirs", "root", "general"])
+_lvsides = st.sampled_from(["both", "both", "old", "both", "new", "diff", "both", "none"])
+_lvall = st.sampled_from([True, False, False, True])
+
+
+def _views_lazy(draw, a, b):
+    """View specs for the lazy-view arm (indexes of the storage arm).  As _views, plus: a filter that keeps
+    every key ({"all": true} - `lambda key: True`); an entry at () (e.g. the whole tree as one unloaded
+    directory object at the root key) goes with a filter that accepts (); a loadable directory object is
+    shown partly (a kept key strictly below it) only under one filter shared by both sides - otherwise
+    "equal .dir hash => equal children" would not hold for what the two arguments show."""
+    keys = {tuple(e[0]) for spec in (a, b) if spec for e in spec}
+    cands = sorted({k[:i] for k in keys for i in range(1, len(k) + 1)} | {("zz",)})
+    lazy = {tuple(e[0]) for spec in (a, b) if spec for e in spec if _lazy_kind(e[2]) == "L"}
+    free = [k for k in cands if not any(len(k) > len(d) and k[:len(d)] == d for d in lazy)]
+
+    def one(spec, pool):
+        root = draw(_isdir_sub) or any(not e[0] for e in spec)
+        if draw(_lvall) or not pool:
+            return {"keep": [], "root": True, "all": True}
+        ptops = [k for k in pool if len(k) == 1]
+        keep = []
+        for i in range(draw(_ntwo)):
+            k = _pick(draw, ptops if i == 0 and ptops and draw(_hashed) else pool)
+            if k not in keep:
+                keep.append(k)
+        return {"keep": [list(k) for k in keep], "root": bool(root)}
+
+    which = draw(_lvsides)
+    out = {"old": None, "new": None}
+    if which == "none":
+        return None
+    if which in ("both", "diff") and a is not None and b is not None:
+        if which == "diff":
+            out["old"], out["new"] = one(a, free), one(b, free)
+        else:
+            out["old"] = one(a, cands)
+            out["new"] = dict(out["old"], keep=[list(k) for k in out["old"]["keep"]])
+            out["old"]["root"] = out["new"]["root"] = bool(out["old"]["root"] or any(not e[0] for e in b))
+    else:
+        side = which if which in ("old", "new") else "new"
+        spec = a if side == "old" else b
+        if spec is None:
+            side, spec = ("new", b) if side == "old" else ("old", a)
+        if spec is not None:
+            out[side] = one(spec, free)
+    return out if out["old"] or out["new"] else None
+
+
+def _keep_unenumerable(case):
+    """Under with_unknown a view's filter keeps the un-enumerable directory objects of its index (see
+    ASSUMPTIONS: DataIndexView.ls(key) loads the underlying entry at `key` before it consults the filter)."""
+    vws = case["views"]
+    sides = [s_ for s_ in ("old", "new") if vws.get(s_) and case[s_] is not None]
+    same = len(sides) == 2 and vws["old"] == vws["new"]
+    us = {s_: [list(e[0]) for e in case[s_] if _lazy_kind(e[2]) == "U" and e[0]] for s_ in sides}
+    for s_ in sides:
+        if vws[s_].get("all"):
+            continue
+        for k in (us["old"] + us["new"]) if same else us[s_]:
+            if k not in vws[s_]["keep"]:
+                vws[s_]["keep"].append(k)
+
+
 @st.composite
 def cases(draw, mode=None, renames=None, storage=False, sqlite=False, views=False):
     # the rename arm draws hashes from three values and moves files more often, so that several
     # deleted and added keys carry the same hash
+    lv = bool(storage and views)   # lazy-view arm: views over indexes of the storage arm, renames mostly on
+    if lv and renames is None:
+        renames = draw(_hashed)
     hs = _hashes_ren if renames else _hashes
     muts = MUTATIONS_REN if renames else MUTATIONS
     if storage:
-        muts = MUTATIONS_STORE
+        muts = MUTATIONS_LV if lv else MUTATIONS_STORE
     base = _dir(draw, 0, hs)
-    if storage:
+    shape = draw(_lvshape) if lv else "general"
+    if shape == "root":
+        # the whole tree is one unloaded, loadable directory object at the root key ()
+        base["lz"], base["uv"] = "L", 0
+    elif shape == "dirs":
+        # the only materialised entries are 1-3 unloaded directory objects at non-root keys
+        kids = {}
+        for i in range(draw(_ntwo)):
+            node = _dir(draw, 1, hs)
+            node["lz"], node["uv"] = ("U" if i and draw(_i4) == 3 else "L"), draw(_i4)
+            kids[draw(_names)] = node
+        base["c"] = kids
+    elif storage:
         # 1-3 unloaded directory entries shared by both sides: at least one whose object is absent
         _mark(draw, base, "U")
         for _ in range(draw(_nmarks)):
@@ -597,6 +682,10 @@ def cases(draw, mode=None, renames=None, storage=False, sqlite=False, views=Fals
         vws = _views(draw, a, b)
         if vws:
             case["views"] = vws
+    if lv:
+        vws = _views_lazy(draw, a, b)
+        if vws:
+            case["views"] = vws
     if sqlite:
         # either side may be an SQLite-backed index (DataIndex.open) that reaches its content through
         # an edit history in one session; at least one side is
@@ -614,6 +703,8 @@ def cases(draw, mode=None, renames=None, storage=False, sqlite=False, views=Fals
         opts["shallow"] = draw(_i6) == 5
         case["storage"] = True
         case["storage_sqlite"] = draw(_i4) == 3   # both indexes on the SQLite trie
+        if case.get("views") and opts["with_unknown"]:
+            _keep_unenumerable(case)
     return case
 
 
@@ -707,13 +798,16 @@ def derived_hash(spec, dkey):
     return ["md5", hashlib.md5(raw).hexdigest() + ".dir"]  # noqa: S324
 
 
-def resolve(spec):
-    """spec -> {key: {"meta": normalised dict|None, "hash": (name, value)|None, "isdir": bool}}"""
+def resolve(spec, full=None):
+    """spec -> {key: {"meta": normalised dict|None, "hash": (name, value)|None, "isdir": bool}}
+
+    full: the spec of the whole index when `spec` is what a view shows of it - the hash of an unloaded
+    directory object names the whole listing object, whatever part of it the view shows."""
     out = {}
     for key, meta, h, isdir in spec:
         key = tuple(key)
         lz = _lazy_kind(h)
-        h = spec_hash(spec, key, h)
+        h = spec_hash(full if lz and full is not None else spec, key, h)
         out[key] = {"meta": meta, "hash": None if h is None else (h[0], h[1]), "isdir": bool(isdir)}
         if lz:
             out[key]["lz"] = lz
@@ -939,6 +1033,10 @@ def view_filter(vs):
     root = bool(vs["root"])
     if any(not k for k in keep):
         raise HarnessError(f"view spec keeps the empty key: {vs}")
+    if vs.get("all"):
+        if not root:
+            raise HarnessError(f"view spec keeps every key but the empty one: {vs}")
+        return lambda key: True
 
     def keeps(key):
         key = tuple(key)
@@ -1163,8 +1261,9 @@ def _run(case, odb, sqdir=None, handles=None):  # noqa: C901, PLR0912, PLR0915
     # views: a side handed to diff() as view(index, filter_fn).  bspec = what the underlying index is
     # built from (the whole spec), rspec = what the diff is specified to see (the keys the filter keeps)
     vws = {s_: v for s_, v in (case.get("views") or {}).items() if v is not None}
-    if vws and (odb is not None or case.get("sqlite")):
-        raise HarnessError("views are only generated over plain in-memory indexes")
+    if vws and case.get("sqlite"):
+        raise HarnessError("views are not generated over SQLite edit histories")
+    same_filter = len(vws) == 2 and vws["old"] == vws["new"]
     bspec = {"old": case["old"], "new": case["new"]}
     rspec = dict(bspec)
     filters = {}
@@ -1175,13 +1274,23 @@ def _run(case, odb, sqdir=None, handles=None):  # noqa: C901, PLR0912, PLR0915
         if not keeps(()) and any(not e[0] for e in case[side]):
             raise HarnessError("an explicit entry at () under a filter that rejects () is outside the domain")
         rspec[side] = [e for e in case[side] if keeps(tuple(e[0]))]
+        kept = {tuple(e[0]) for e in rspec[side]}
+        if opts["with_unknown"] and any(_lazy_kind(e[2]) == "U" and tuple(e[0]) not in kept for e in case[side]):
+            raise HarnessError("with_unknown: a view that filters out an un-enumerable directory object of its "
+                               "index is outside the domain (see ASSUMPTIONS)")
+        for e in rspec[side]:
+            k = tuple(e[0])
+            if _lazy_kind(e[2]) == "L" and not same_filter and any(
+                    len(x[0]) > len(k) and tuple(x[0][:len(k)]) == k and tuple(x[0]) not in kept for x in case[side]):
+                raise HarnessError(f"view shows the directory object {k} partly under a filter the other side "
+                                   "does not share: outside the domain (equal .dir hash, different children)")
         # a kept directory's derived hash is a function of the files the view shows below it
         bspec[side] = [
             [e[0], e[1], derived_hash(rspec[side], tuple(e[0])) if e[2] == "D" and keeps(tuple(e[0])) else e[2], e[3]]
             for e in case[side]
         ]
-    fo = None if rspec["old"] is None else resolve(rspec["old"])
-    fn = None if rspec["new"] is None else resolve(rspec["new"])
+    fo = None if rspec["old"] is None else resolve(rspec["old"], case["old"])
+    fn = None if rspec["new"] is None else resolve(rspec["new"], case["new"])
     # ov / nv: unpruned views (entry data by key); pv_o / pv_n: what a shallow diff looks at
     ov, nv = view(fo, False), view(fn, False)
     pv_o, pv_n = view(fo, opts["shallow"]), view(fn, opts["shallow"])
@@ -1286,26 +1395,28 @@ def _run(case, odb, sqdir=None, handles=None):  # noqa: C901, PLR0912, PLR0915
     dup_hash = False
     nren = 0
     lived = (plain, ren, bad)
-    if opts["with_renames"]:
-        rn_plain, rn, rn_bad = flat(real_diff(old, new, opts))
-        lived = (rn_plain, rn, rn_bad)
-        nren = len(rn)
+    first_call = False
+
+    def judge_renames(got, tag):
+        """Clauses of (e) for one with_renames answer, judged against the reference / the rename-free diff."""
+        rn_plain, rn, rn_bad = got
+        out, dup = [], False
         for b in rn_bad:
-            viols.append(Viol("malformed-change:renames", b))
+            out.append(Viol(f"malformed-change:renames{tag}", b))
         if old is None or new is None:
             if rn:
-                viols.append(Viol("rename-one-sided", f"renames {rn[:3]} with one side absent"))
+                out.append(Viol(f"rename-one-sided{tag}", f"renames {rn[:3]} with one side absent"))
         added = {k for t, k, _, _ in plain if t == ADD}
         deleted = {k for t, k, _, _ in plain if t == DELETE}
         for ok, nk in rn:
             oh = ov[ok]["hash"] if ok in ov else None
             nh = nv[nk]["hash"] if nk in nv else None
             if ok not in deleted or nk not in added:
-                viols.append(Viol("rename-not-add-delete",
-                                  f"rename {ok} -> {nk} does not pair a deleted with an added key"))
+                out.append(Viol(f"rename-not-add-delete{tag}",
+                                f"rename {ok} -> {nk} does not pair a deleted with an added key"))
             elif oh is None or oh != nh:
-                viols.append(Viol("rename-hash-mismatch",
-                                  f"rename {ok} ({oh}) -> {nk} ({nh}) does not carry one truthy hash"))
+                out.append(Viol(f"rename-hash-mismatch{tag}",
+                                f"rename {ok} ({oh}) -> {nk} ({nh}) does not carry one truthy hash"))
         # undoing the pairing gives exactly the rename-free diff
         undone = sorted(
             rn_plain
@@ -1315,9 +1426,9 @@ def _run(case, odb, sqdir=None, handles=None):  # noqa: C901, PLR0912, PLR0915
         if [(t, k) for t, k, _, _ in undone] != [(t, k) for t, k, _, _ in plain]:
             lost = [x[:2] for x in plain if x[:2] not in [u[:2] for u in undone]][:3]
             extra = [u[:2] for u in undone if u[:2] not in [x[:2] for x in plain]][:3]
-            viols.append(Viol("rename-lost-or-duplicated",
-                              f"undoing renames does not give the plain diff: lost {lost}, extra {extra}, "
-                              f"renames {rn[:4]}"))
+            out.append(Viol(f"rename-lost-or-duplicated{tag}",
+                            f"undoing renames does not give the plain diff: lost {lost}, extra {extra}, "
+                            f"renames {rn[:4]}"))
         # no pairable add/delete is left
         left_add = {}
         for t, k, _, _ in rn_plain:
@@ -1326,16 +1437,34 @@ def _run(case, odb, sqdir=None, handles=None):  # noqa: C901, PLR0912, PLR0915
         if old is not None and new is not None:
             for t, k, _, _ in rn_plain:
                 if t == DELETE and k in ov and ov[k]["hash"] in left_add:
-                    viols.append(Viol("rename-unpaired",
-                                      f"deleted {k} and added {left_add[ov[k]['hash']][0]} carry the "
-                                      f"same hash but are not paired"))
+                    out.append(Viol(f"rename-unpaired{tag}",
+                                    f"deleted {k} and added {left_add[ov[k]['hash']][0]} carry the "
+                                    f"same hash but are not paired"))
                     break
             want_pairs = ref_renames({k: t for t, k, _, _ in plain}, ov, nv)
-            if not viols and rn != want_pairs:
-                viols.append(Viol("rename-queue-order",
-                                  f"renames {rn} differ from sorted-key queue pairing {want_pairs}"))
+            if not viols and not out and rn != want_pairs:
+                out.append(Viol(f"rename-queue-order{tag}",
+                                f"renames {rn} differ from sorted-key queue pairing {want_pairs}"))
             hs = [ov[k]["hash"] for k, _ in want_pairs]
-            dup_hash = len(set(hs)) < len(hs)
+            dup = len(set(hs)) < len(hs)
+        return out, dup
+
+    if opts["with_renames"]:
+        if odb is not None:
+            # storage arm: the same question asked of freshly built indexes / views as their FIRST diff call
+            # (no directory object loaded yet - the calls above have walked `old` and `new`); the answer
+            # is judged like the later one: what a diff reports does not depend on what was loaded before
+            first_call = True
+            fresh = {}
+            for name in ("old", "new"):
+                fpath = os.path.join(sqdir, name + "-first.db") if sqdir else None
+                fresh[name] = wrap(name, build_index(bspec[name], odb, fpath, handles))
+            v, _ = judge_renames(flat(real_diff(fresh["old"], fresh["new"], opts)), ":first-call")
+            viols += v
+        lived = flat(real_diff(old, new, opts))
+        nren = len(lived[1])
+        v, dup_hash = judge_renames(lived, "")
+        viols += v
 
     # -- SQLite: the live handle and the committed, re-opened file give the same diff ---------
     if sq:
@@ -1412,6 +1541,38 @@ def _run(case, odb, sqdir=None, handles=None):  # noqa: C901, PLR0912, PLR0915
                 classes.append("storage:other-side-lists-below-unenumerable")
         if any(t == UNKNOWN for t, _, _, _ in plain):
             classes.append("storage:unknown-reported")
+        if first_call:
+            classes.append("storage:first-call-renames")
+            if nren:
+                classes.append("storage:first-call-renames:renames>=1")
+        # what is materialised before anything is loaded: only unloaded directory objects?
+        mcls = set()
+        for side in ("old", "new"):
+            spec = case[side]
+            if not spec:
+                continue
+            lzk = [tuple(e[0]) for e in spec if _lazy_kind(e[2])]
+            mat = [tuple(e[0]) for e in spec
+                   if not any(len(e[0]) > len(d) and tuple(e[0][:len(d)]) == d for d in lzk)]
+            if sorted(mat) != sorted(lzk):
+                continue
+            kind = "view" if side in vws else "plain"
+            what = "whole-tree-one-root-object" if mat == [()] else "only-unloaded-dir-objects"
+            mcls.add(f"storage:{kind}:{what}")
+            if opts["with_renames"] and nren:
+                mcls.add(f"storage:{kind}:{what}:renames>=1")
+        classes += sorted(mcls)
+        if vws:
+            classes.append("storage:view")
+            if any(v.get("all") for v in vws.values()):
+                classes.append("storage:view:keeps-every-key")
+            for side in sorted(vws):
+                kept = {tuple(e[0]) for e in rspec[side]}
+                if any(_lazy_kind(e[2]) == "L" and any(
+                        len(x[0]) > len(e[0]) and x[0][:len(e[0])] == e[0] and tuple(x[0]) not in kept
+                        for x in case[side]) for e in rspec[side]):
+                    classes.append("storage:view:dir-object-partly-shown")
+                    break
     for o in ("with_unchanged", "cmpkey", "shallow", "with_renames", "with_unknown"):
         if opts[o]:
             classes.append(o)
@@ -1543,6 +1704,7 @@ ARMS = [
     ("meta", False, False),
     (None, True, False),
     (None, None, "view"),   # one or both sides handed to diff() as DataIndexView over a larger index
+    (None, None, "lazyview"),   # views over indexes of the storage arm: unloaded directory objects behind views
 ]
 
 
@@ -1563,11 +1725,13 @@ def run(ctx):
                     n = ctx.n(quick=60, thorough=1500)
                 elif storage == "view":
                     n = per // 2
+                elif storage == "lazyview":
+                    n = per // 3
                 elif storage:
                     n = per // 3
                 n = max(1, n // rounds)
-                strat = cases(mode=mode, renames=renames, storage=storage is True, sqlite=storage == "sqlite",
-                              views=storage == "view")
+                strat = cases(mode=mode, renames=renames, storage=storage in (True, "lazyview"),
+                              sqlite=storage == "sqlite", views=storage in ("view", "lazyview"))
                 if not ctx.run_given(strat, run_case, n):
                     return
     finally:
